@@ -55,6 +55,95 @@ def check(case: dict) -> Verdict:
     return v
 
 
+# ---------------------------------------------------------------------------- attempt timeouts that really fire
+
+
+@st.composite
+def timeout_case(draw):
+    n = draw(st.sampled_from([2, 3, 4]))
+    return {
+        "async": draw(st.booleans()),
+        "mode": "execute",
+        "max_attempts": n,
+        # per attempt: "hang" (outlives the attempt timeout), "ok", "fail" (raises at once)
+        "script": draw(st.lists(st.sampled_from(["hang", "hang", "ok", "fail"]), min_size=1, max_size=n)),
+        "policy": draw(st.sampled_from(["Retry", "Policy", "RetryPolicy"])),
+    }
+
+
+def check_timeouts(case: dict) -> Verdict:
+    """Real clock, real threads / event loop: attempts must equal the number of invocations even when
+    attempts time out while the operation is still running. The oracle is timing-independent."""
+    import asyncio
+    import threading
+
+    import redress
+
+    v = Verdict()
+    invoked = []
+    release = threading.Event()
+    script = case["script"]
+
+    class Boom(Exception):
+        pass
+
+    def kind(i):
+        return script[i] if i < len(script) else script[-1]
+
+    def op():
+        i = len(invoked)
+        invoked.append(i)
+        k = kind(i)
+        if k == "hang":
+            release.wait(0.4)
+            return ("late", i)
+        if k == "fail":
+            raise Boom()
+        return ("value", i)
+
+    async def aop():
+        i = len(invoked)
+        invoked.append(i)
+        k = kind(i)
+        if k == "hang":
+            await asyncio.sleep(0.4)
+            return ("late", i)
+        if k == "fail":
+            raise Boom()
+        return ("value", i)
+
+    kw = dict(classifier=lambda e: redress.ErrorClass.TRANSIENT, strategy=lambda ctx: 0.0, max_attempts=case["max_attempts"], attempt_timeout_s=0.05, deadline_s=30.0)
+    try:
+        if case["async"]:
+            cls = {"Retry": redress.AsyncRetry, "Policy": None, "RetryPolicy": redress.AsyncRetryPolicy}[case["policy"]]
+            pol = redress.AsyncPolicy(retry=redress.AsyncRetry(**kw)) if cls is None else cls(**kw)
+            loop = asyncio.new_event_loop()
+            try:
+                out = loop.run_until_complete(pol.execute(aop))
+            finally:
+                loop.close()
+        else:
+            cls = {"Retry": redress.Retry, "Policy": None, "RetryPolicy": redress.RetryPolicy}[case["policy"]]
+            pol = redress.Policy(retry=redress.Retry(**kw)) if cls is None else cls(**kw)
+            out = pol.execute(op)
+    except Exception as x:  # noqa: BLE001
+        v.fail("C11:timeouts:execute-raised", f"{case}: execute() raised {x!r}")
+        release.set()
+        return v
+    finally:
+        release.set()
+    n = len(invoked)
+    if out.attempts != n:
+        v.fail("C11:timeouts:attempts", f"{case}: outcome.attempts={out.attempts} but the operation was invoked {n} times")
+    if out.ok and (not isinstance(out.value, tuple) or out.value[0] != "value"):
+        v.fail("C11:timeouts:value", f"{case}: ok outcome with value {out.value!r}")
+    if not out.ok and out.stop_reason is None:
+        v.fail("C11:timeouts:no-stop-reason", f"{case}: {out}")
+    v.nontrivial = "hang" in script[: case["max_attempts"]]
+    v.tag("real-timeout:" + ("async" if case["async"] else "sync"))
+    return v
+
+
 PROP = Property(
     id="C11",
     level="exploration",
@@ -64,7 +153,12 @@ PROP = Property(
         "policies). Oracle: RetryOutcome fields vs trace (ok/value identity, attempts = #invocations, last_class/cause/exactly "
         "one of last_exception/last_result describe the last classified failure, next_sleep_s set iff deferred, stop_reason in "
         "the set of conditions that hold); only the documented exception kinds escape. Non-trivial = not-ok outcome after >= 2 "
-        "classified failures, or a SCHEDULED/ABORTED outcome."
+        "classified failures, or a SCHEDULED/ABORTED outcome. A small second stream uses the real clock: attempt_timeout_s=0.05 "
+        "with operations that outlive it (sync worker threads / asyncio.wait_for on a real loop); its oracle (attempts == "
+        "invocations, ok value from a completed attempt) does not depend on timing."
     ),
-    streams=[Stream("outcome", check, strategy=case_st(), quick=14000, thorough=300000)],
+    streams=[
+        Stream("outcome", check, strategy=case_st(), quick=14000, thorough=300000),
+        Stream("real_attempt_timeouts", check_timeouts, strategy=timeout_case(), quick=64, thorough=800, per_shard_min=4),
+    ],
 )
